@@ -41,7 +41,8 @@ def handle : List String → String
       match xs.mapM evOf with
       | some h => "ok\t" ++ js (.obj [(S "wf", b (WFHistory h)), (S "numbered", b (numbered h 0)),
           (S "ts", b (tsMonotone h)), (S "terminalLast", b (terminalLast h)),
-          (S "started", b (startsWithStarted h)), (S "brackets", b (bracketsOK [] h))])
+          (S "started", b (startsWithStarted h)), (S "brackets", b (bracketsOK [] h)),
+          (S "balanced", b (balancedIfClean h))])
       | none => "unsupported"
     | _ => "unsupported"
   | ["notes", ns] =>
